@@ -1,0 +1,77 @@
+//go:build verif
+
+// Contracts for the verification machinery under /verif (contract-based deductive
+// verification). This file is comment-only, is excluded from every normal build by the
+// "verif" build tag, and declares nothing. See /verif/DESIGN.md §4 and §13.6 (proto write
+// model: ghost(pbw) counts writes into protobuf state this activation did not create; the
+// last such write is recorded in ghost(pbwKind/pbwMsg/pbwFld/pbwVal/pbwVer)).
+
+package extension
+
+// shared body of Overwrite and AppendInto (inlined into both; `get` is NewField or Mutable)
+//@ func updateExtensionsIn(ext, get, extensions)
+//@   inline
+//@   loop 1 (i):
+//@     invariant pbDetL(extensionsList) ==> ghost(pbw) == old(ghost(pbw)) && dlLen(ghost(pbv), extensionsList) == i
+//@     invariant pbDetL(extensionsList) ==> forall k int :: 0 <= k && k < i ==> dlAt(ghost(pbv), extensionsList, k) == pbValOfMsg(extRefl(extensions[k]))
+//@     invariant !pbDetL(extensionsList) && pbIsList(field) ==> ghost(pbw) == old(ghost(pbw)) + i
+//@     invariant !pbDetM(message)
+
+// C20: Overwrite replaces the extension list by exactly the given extensions, in order, with
+// one write (Set of the "extension" field); nothing else is written
+//@ func Overwrite(ext, extensions)
+//@   requires ext != nil
+//@   let m = pbReflect(ext)
+//@   ensures ghost(pbw) == old(ghost(pbw)) + 1 && ghost(pbwKind) == 1 && ghost(pbwMsg) == m && ghost(pbwFld) == pbByName(pbFields(pbDesc(m)), "extension")
+//@   ensures pbDetL(pbListOf(ghost(pbwVal))) && dlLen(ghost(pbwVer), pbListOf(ghost(pbwVal))) == len(extensions)
+//@   ensures forall k int :: 0 <= k && k < len(extensions) ==> dlAt(ghost(pbwVer), pbListOf(ghost(pbwVal)), k) == pbValOfMsg(extRefl(extensions[k]))
+//@   assigns ghost:pbw, ghost:pbv, ghost:pbwKind, ghost:pbwMsg, ghost:pbwFld, ghost:pbwVal, ghost:pbwVer
+
+// C20: AppendInto appends each given extension to the element's own list (one write each) and
+// stores that list back: len(extensions) + 1 writes, the last one a Set of the "extension" field
+//@ func AppendInto(ext, extensions)
+//@   requires ext != nil
+//@   let m = pbReflect(ext)
+//@   assuming pbIsList(pbByName(pbFields(pbDesc(pbReflect(ext))), "extension"))
+//@   ensures ghost(pbw) == old(ghost(pbw)) + len(extensions) + 1 && ghost(pbwKind) == 1 && ghost(pbwMsg) == m && ghost(pbwFld) == pbByName(pbFields(pbDesc(m)), "extension")
+//@   assigns ghost:pbw, ghost:pbv, ghost:pbwKind, ghost:pbwMsg, ghost:pbwFld, ghost:pbwVal, ghost:pbwVer
+
+// building an extension writes no attached protobuf state; the new extension carries the url
+//@ func FromElement(uri, element) (res, err)
+//@   ensures err == nil ==> res != nil
+//@   ensures element == nil ==> err != nil
+//@   ensures ghost(pbw) == old(ghost(pbw)) && ghost(pbv) == old(ghost(pbv))
+//@   assigns ghost:pbw, ghost:pbv, ghost:pbwKind, ghost:pbwMsg, ghost:pbwFld, ghost:pbwVal, ghost:pbwVer
+
+// C20: SetByURL rewrites the extension list with one write: the old extensions whose URL
+// differs from url, in their order (the very same objects), followed by one new extension with
+// that url per value. Extensions with any other URL are therefore untouched.
+//@ func SetByURL(ext, url, values)
+//@   requires ext != nil
+//@   let m = pbReflect(ext)
+//@   let xs = extsOf(ext)
+//@   ensures ghost(pbw) == old(ghost(pbw)) + 1 && ghost(pbwKind) == 1 && ghost(pbwMsg) == m && ghost(pbwFld) == pbByName(pbFields(pbDesc(m)), "extension")
+//@   ensures pbDetL(pbListOf(ghost(pbwVal))) && dlLen(ghost(pbwVer), pbListOf(ghost(pbwVal))) == ukLen(url, xs, len(xs)) + len(values)
+//@   ensures forall k int :: 0 <= k && k < len(xs) && extUrl(xs[k]) != url ==> dlAt(ghost(pbwVer), pbListOf(ghost(pbwVal)), ukLen(url, xs, k)) == pbValOfMsg(extRefl(xs[k]))
+//@   loop 1 (i):
+//@     invariant ghost(pbw) == old(ghost(pbw)) && own(newExtensionList) && len(newExtensionList) == ukLen(url, xs, i)
+//@     invariant forall k int :: 0 <= k && k < i && extUrl(xs[k]) != url ==> 0 <= ukLen(url, xs, k) && ukLen(url, xs, k) < len(newExtensionList) && newExtensionList[ukLen(url, xs, k)] == xs[k]
+//@   loop 2 (j):
+//@     invariant ghost(pbw) == old(ghost(pbw)) && own(newExtensionList) && len(newExtensionList) == ukLen(url, xs, len(xs)) + j
+//@     invariant forall k int :: 0 <= k && k < len(xs) && extUrl(xs[k]) != url ==> 0 <= ukLen(url, xs, k) && ukLen(url, xs, k) < len(newExtensionList) && newExtensionList[ukLen(url, xs, k)] == xs[k]
+//@   assigns ghost:pbw, ghost:pbv, ghost:pbwKind, ghost:pbwMsg, ghost:pbwFld, ghost:pbwVal, ghost:pbwVer
+
+// C20: Upsert writes only an extension with that URL: when one exists, the value of the first
+// such extension is replaced (one write, into that extension); otherwise the extension is
+// appended to the element's list (the two writes of AppendInto)
+//@ func Upsert(ext, extension)
+//@   requires ext != nil
+//@   let xs = extsOf(ext)
+//@   let u = extUrl(extension)
+//@   assuming pbIsList(pbByName(pbFields(pbDesc(pbReflect(ext))), "extension"))
+//@   ensures (exists k int :: 0 <= k && k < len(xs) && extUrl(xs[k]) == u) ==> ghost(pbw) == old(ghost(pbw)) + 1 && ghost(pbwKind) == 1 && ghost(pbwFld) == pbByName(pbFields(pbDesc(ghost(pbwMsg))), "value")
+//@   ensures (exists k int :: 0 <= k && k < len(xs) && extUrl(xs[k]) == u) ==> exists k int :: 0 <= k && k < len(xs) && extUrl(xs[k]) == u && (forall j int :: 0 <= j && j < k ==> extUrl(xs[j]) != u) && ghost(pbwMsg) == extRefl(xs[k])
+//@   ensures (forall k int :: 0 <= k && k < len(xs) ==> extUrl(xs[k]) != u) ==> ghost(pbw) == old(ghost(pbw)) + 2 && ghost(pbwKind) == 1 && ghost(pbwMsg) == pbReflect(ext) && ghost(pbwFld) == pbByName(pbFields(pbDesc(pbReflect(ext))), "extension")
+//@   loop 1 (i):
+//@     invariant ghost(pbw) == old(ghost(pbw)) && (forall k int :: 0 <= k && k < i ==> extUrl(xs[k]) != u)
+//@   assigns ghost:pbw, ghost:pbv, ghost:pbwKind, ghost:pbwMsg, ghost:pbwFld, ghost:pbwVal, ghost:pbwVer
